@@ -1,5 +1,6 @@
 import Props.C07Jwt
 import Model.ClientAuth
+import Generated.Grants
 /-
   C07 — a request is treated as coming from a client only with that client's identifier, valid
   credentials and a method both the endpoint permits and the client is registered for; everything
@@ -145,6 +146,39 @@ theorem authenticated_implies_valid_credentials_and_permitted_method (clients : 
           exact ⟨by simp [h1], h2⟩
   obtain ⟨h1, h2⟩ := key all h
   exact ⟨h1, h2⟩
+
+/-- the permitted-method lists the built-in grants ship with (regenerated from the grant classes after the whole
+    library is imported): the password, client-credentials and refresh grants permit HTTP Basic only, the
+    authorization-code grant Basic and POST, the front-channel grants `none`, the device grant all three -/
+theorem shipped_method_lists :
+    Generated.Grants.passwordAuthMethods = ["client_secret_basic"] ∧
+    Generated.Grants.clientCredentialsAuthMethods = ["client_secret_basic"] ∧
+    Generated.Grants.refreshAuthMethods = ["client_secret_basic"] ∧
+    Generated.Grants.codeAuthMethods = ["client_secret_basic", "client_secret_post"] ∧
+    Generated.Grants.implicitAuthMethods = ["none"] ∧
+    Generated.Grants.oidcImplicitAuthMethods = ["none"] ∧
+    Generated.Grants.hybridAuthMethods = ["none"] ∧
+    Generated.Grants.deviceAuthMethods = ["client_secret_basic", "client_secret_post", "none"] := by decide
+
+/-- at a built-in grant that keeps its shipped list, a client is authenticated through HTTP Basic only
+    (password, client credentials, refresh), whatever it presents and whatever it is registered for -/
+theorem shipped_basic_only_grants (clients : List Client) (r : Req) (id : Bytes) (m : String) (methods : List String)
+    (hg : methods = Generated.Grants.passwordAuthMethods ∨ methods = Generated.Grants.clientCredentialsAuthMethods ∨
+          methods = Generated.Grants.refreshAuthMethods)
+    (h : authenticate clients r methods "token" = .authenticated id m) : m = "client_secret_basic" := by
+  obtain ⟨hm, _⟩ := authenticated_implies_valid_credentials_and_permitted_method clients r methods "token" id m h
+  obtain ⟨h1, h2, h3, _⟩ := shipped_method_lists
+  rcases hg with hg | hg | hg <;> subst hg
+  · rw [h1] at hm; simpa using hm
+  · rw [h2] at hm; simpa using hm
+  · rw [h3] at hm; simpa using hm
+
+/-- the shipped authorization-code grant never authenticates a client through `none` -/
+theorem shipped_code_grant_not_none (clients : List Client) (r : Req) (id : Bytes) (m : String)
+    (h : authenticate clients r Generated.Grants.codeAuthMethods "token" = .authenticated id m) : m ≠ "none" := by
+  obtain ⟨hm, _⟩ := authenticated_implies_valid_credentials_and_permitted_method clients r _ "token" id m h
+  rw [shipped_method_lists.2.2.2.1] at hm
+  intro hn; subst hn; simp at hm
 
 /-- a public client that also supplies a secret is never authenticated through `none` -/
 theorem public_client_with_secret_rejected (clients : List Client) (r : Req) (hs : truthyB r.dataSecret = true) :
